@@ -84,6 +84,7 @@ class _SimFile:
         self._real.flush()
 
     def flush(self):
+        self._fs._sync()
         self._fs._event("flush", self._rel, 0)
         if self._fs.killed:
             return
@@ -93,6 +94,7 @@ class _SimFile:
         if self._closed:
             return
         fs = self._fs
+        fs._sync()
         fs._event("close", self._rel, 0)
         self._closed = True
         try:
@@ -114,6 +116,7 @@ class _SimFile:
     # -- reads
     def read(self, *a):
         fs = self._fs
+        fs._sync()
         fs._event("read", self._rel, 0)
         flt = fs._fault("read", self._rel, self._mode)
         if flt is not None:
@@ -155,6 +158,114 @@ class _SimFile:
         return getattr(self._real, name)
 
 
+def _decide(seed, idx, p):
+    """Stateless seeded coin: does the invocation holding the token hand it over at global event idx?"""
+    x = (seed * 0x9E3779B97F4A7C15 + idx * 0xBF58476D1CE4E5B9 + 0x94D049BB133111EB) & 0xFFFFFFFFFFFFFFFF
+    x ^= x >> 31
+    x = (x * 0xD6E8FEB86659FD93) & 0xFFFFFFFFFFFFFFFF
+    x ^= x >> 32
+    return (x % 10000) < int(p * 10000)
+
+
+class Coord:
+    """Two invocations of the tool running at the same time on one simulated disk (two real processes: they
+    share nothing but the disk).  Their file-system events are totally ordered by a token: only the holder may
+    perform one; at each event a seeded coin decides whether the other invocation gets the token next.  The
+    schedule is a pure function of (seed, the two event sequences)."""
+
+    def __init__(self, sock, role, seed, p):
+        self.sock = sock
+        self.role = role            # "A" = this (parent) process, "B" = the forked partner
+        self.seed = seed
+        self.p = p
+        self.have = role == "A"
+        self.idx = 0
+        self.other_done = False
+        self.finished = False
+        self.switches = 0
+        self.child_pid = None
+        self.result_fd = None
+
+    def _send(self, kind):
+        try:
+            self.sock.sendall(kind + self.idx.to_bytes(8, "little"))
+        except OSError:
+            self.other_done = True
+
+    def _wait(self):
+        buf = b""
+        while len(buf) < 9:
+            try:
+                c = self.sock.recv(9 - len(buf))
+            except OSError:
+                c = b""
+            if not c:
+                self.other_done = True
+                self.have = True
+                return
+            buf += c
+        self.idx = max(self.idx, int.from_bytes(buf[1:], "little"))
+        self.have = True
+        if buf[:1] == b"D":
+            self.other_done = True
+
+    def point(self):
+        if self.finished:
+            return
+        if not self.have:
+            self._wait()
+        self.idx += 1
+        if not self.other_done and _decide(self.seed, self.idx, self.p):
+            self.switches += 1
+            self._send(b"T")
+            self.have = False
+            self._wait()
+
+    def finish(self):
+        if self.finished:
+            return
+        self.finished = True
+        if not self.other_done:
+            self._send(b"D")
+
+    # -- parent side
+    def collect(self):
+        """Outcome of the partner invocation (blocks until it has ended)."""
+        import pickle
+        self.finish()
+        chunks = []
+        while True:
+            c = os.read(self.result_fd, 1 << 16)
+            if not c:
+                break
+            chunks.append(c)
+        os.close(self.result_fd)
+        try:
+            os.waitpid(self.child_pid, 0)
+        except OSError:
+            pass
+        try:
+            self.sock.close()
+        except OSError:
+            pass
+        data = b"".join(chunks)
+        if not data:
+            raise proc.HarnessError("partner invocation died without a result")
+        return pickle.loads(data)
+
+    # -- partner side
+    def child_exit(self, summary):
+        import pickle
+        self.finish()
+        try:
+            data = pickle.dumps(summary, protocol=4)
+            off = 0
+            while off < len(data):
+                off += os.write(self.result_fd, data[off:off + (1 << 16)])
+        finally:
+            os._exit(0)
+
+
 class SimFS:
     def __init__(self, root, stepclock=None):
         self.root = root
@@ -171,6 +282,13 @@ class SimFS:
         self.encoding = "utf-8"     # the simulated locale's default text encoding
         self.clock = None           # the op's SimClock (file timestamps come from the simulated clock)
         self.disk_time = 1.7e9      # simulated time of the last timestamp handed out
+        self.coord = None           # set while a partner invocation runs at the same time (see Coord)
+
+    def _sync(self):
+        """A file-system event is about to happen: with a partner invocation running, wait for the token."""
+        c = self.coord
+        if c is not None:
+            c.point()
 
     def stamp(self, rel, advance=True):
         """Give the file the simulated modification time (the real tmpfs mtime is the
@@ -233,6 +351,7 @@ class SimFS:
                 raise OSError(ERRNOS["EROFS"], os.strerror(ERRNOS["EROFS"]), os.fspath(file))
             # reads outside the simulated disk (interpreter internals, the repo's own files): untouched
             return _REAL_OPEN(file, mode, *a, **kw)
+        self._sync()
         self._event("open:" + mode, rel, 0)
         flt = self._fault("open", rel, mode)
         if flt is not None:
@@ -258,6 +377,7 @@ class SimFS:
             return real_fn(path, *a, **kw)
         if self.killed:
             return None
+        self._sync()
         self._event(kind, rel, 0)
         flt = self._fault(kind, rel, "w")
         if flt is not None:
@@ -272,6 +392,7 @@ class SimFS:
             return real_fn(path, flags, *a, **kw)
         writing = bool(flags & (os.O_WRONLY | os.O_RDWR | os.O_CREAT | os.O_TRUNC | os.O_APPEND))
         mode = "w" if writing else "r"
+        self._sync()
         self._event("open:" + mode + ":os", rel, 0)
         flt = self._fault("open", rel, mode)
         if flt is not None:
@@ -284,6 +405,7 @@ class SimFS:
         if (rs is not None or rd is not None):
             if self.killed:
                 return None
+            self._sync()
             flt = self._fault("rename", rd if rd is not None else rs, "w")
             if flt is not None:
                 raise OSError(ERRNOS[flt["errno"]], os.strerror(ERRNOS[flt["errno"]]), os.fspath(src))
@@ -644,6 +766,44 @@ class World:
             sys.path[:] = p0["path"]
         import tempfile as _tempfile
         _tempfile.tempdir = None
+
+    def fork_partner(self, seed, p=0.3):
+        """Start a second invocation of the tool that runs *at the same time* on this disk.  Returns a Coord in
+        both processes: role "A" here, role "B" in the forked partner (which must end in coord.child_exit)."""
+        import socket as _socket
+        sa, sb = _socket.socketpair()
+        r_fd, w_fd = os.pipe()
+        sys.stdout.flush()
+        sys.stderr.flush()
+        pid = os.fork()
+        if pid == 0:
+            try:
+                sa.close()
+                os.close(r_fd)
+                c = Coord(sb, "B", seed, p)
+                c.result_fd = w_fd
+                self.fs.coord = c
+                self.ref = None             # the reference server belongs to the parent
+                return c
+            except BaseException:
+                os._exit(3)
+        sb.close()
+        os.close(w_fd)
+        c = Coord(sa, "A", seed, p)
+        c.child_pid = pid
+        c.result_fd = r_fd
+        self.fs.coord = c
+        self.fired("concurrent-invocation-pairs")
+        return c
+
+    def end_partner(self, coord):
+        """Parent side: wait for the partner's outcome; the disk is this process's alone again."""
+        try:
+            res = coord.collect()
+        finally:
+            self.fs.coord = None
+        self.fired("concurrent-token-handovers", coord.switches + int(res.get("switches", 0)))
+        return res
 
     def quiet_budget_left(self):
         """Long loops of identical calls inside one op stop early (deterministically) when the code under test
